@@ -83,6 +83,14 @@ def hullCheck (pts : List Pt) : HullOut → Bool
   | .ring r => isClosedRing r && decide (4 ≤ r.length) && r.all (fun c => memB c pts) &&
       (ringOK 1 r pts || ringOK (-1) r pts)
 
+/-- the same without the strict-corner requirement (used for full-precision inputs, where an exactly collinear
+hull vertex can survive GEOS's double-double orientation test): corners ⊆ inputs and every input on the inner side of
+every edge -/
+def hullCheckWeak (pts : List Pt) : HullOut → Bool
+  | .ring r => isClosedRing r && decide (4 ≤ r.length) && r.all (fun c => memB c pts) &&
+      (ringCovers 1 r pts || ringCovers (-1) r pts)
+  | h => hullCheck pts h
+
 /-! ## envelope -/
 
 def minL : Int → List Int → Int
